@@ -170,7 +170,7 @@ def systematic(rnd, tier):
 
 def gen_cases(seed, tier):
     rnd = random.Random(seed)
-    n = 60 if tier == "quick" else 700
+    n = 50 if tier == "quick" else 700
     hp = systematic(rnd, tier) + [gen_history(rnd, rnd.randint(4, 10)) for _ in range(n)]
     cases = []
     for hist, pool in hp:
